@@ -1,7 +1,8 @@
 (* C13 -- Protocol round trip: a transmitted message reaches exactly the matching handler. *)
 From Coq Require Import String Ascii List Bool Arith NArith ZArith.
 From KV Require Import Lib.Str Lib.ByteSeq Gen.CxxConn Gen.ProtoTmpl Model.Conn Model.Proto
-                       Proofs.ByteSeqProofs Proofs.ConnProofs Proofs.ProtoProofs.
+                       Proofs.ByteSeqProofs Proofs.ConnProofs Proofs.ProtoProofs Proofs.ProtoSize.
+From KV Require Model.ProtoLang Model.Layout.
 (* not used by the statements below: extracted into build/kmodel together with the models of this closure (see Props/C14.v) *)
 From KV Require Spec.StreamParse.
 Import ListNotations.
@@ -64,6 +65,26 @@ Proof.
   eexists. split; [vm_compute; reflexivity |]. split; vm_compute; reflexivity.
 Qed.
 Print Assumptions C13_round_trip_refuted.
+
+(* Which interfaces of the C12 domain the round trip covers.  In the generated program sizeof(<Msg>) = 8 + the recursive sum
+   of the member sizes (C12), SendData is handed the whole message iff that is < 2^16 ([transmittable], evaluated by the check
+   on every generated interface), and the C12 domain itself (wf_iface bounds payloads by 2^32 only) contains interfaces beyond
+   it: struct nesting multiplies sizes (known finding K-C13-1, identified by the interface IBig / big_iface). *)
+Theorem C13_transmittable_bound : forall i m, ProtoLang.wf_iface i = true -> In m (ProtoLang.i_msgs i) ->
+  option_map Layout.si_size (Layout.layout_of (ProtoLang.emit i) (ProtoLang.m_name m)) = Some (msg_sizeof m) /\
+  (forall bytes, len bytes = msg_sizeof m -> (sent_bytes bytes = bytes <-> transmittable m = true)).
+Proof.
+  intros i m W Hm. split; [exact (msg_sizeof_is_sizeof i m W Hm) |].
+  intros bytes Hl. rewrite sent_whole_iff, Hl. unfold transmittable. change (2 ^ send_len_bits) with 65536.
+  symmetry. apply N.ltb_lt.
+Qed.
+Print Assumptions C13_transmittable_bound.
+
+Theorem C13_domain_exceeds_bound_refuted :
+  ProtoLang.wf_iface big_iface = true /\
+  forall m, In m (ProtoLang.i_msgs big_iface) -> msg_sizeof m = 65544 /\ transmittable m = false.
+Proof. exact domain_exceeds_bound. Qed.
+Print Assumptions C13_domain_exceeds_bound_refuted.
 
 (* ---- non-vacuity ---- *)
 Definition ex_b (n : N) : byte := ascii_of_N n.
